@@ -18,14 +18,35 @@ def container_program(rng):
     while len(ks) < n:
         k = r.choice(keys)
         ks.append(k)       # duplicates allowed
-    items = ", ".join('"%s": %s' % (k, r.choice(["1", "2", "[3, 1]", "{\"x\": 1, \"a\": 2}", "nil", "\"s\""])) for k in ks)
-    sitems = ", ".join(str(r.below(9)) for _ in range(2 + r.below(5)))
-    lines = ["m := {%s}" % items, "s := {%s}" % sitems, "out := []"]
+    vals = ["1", "2", "[3, 1]", "{\"x\": 1, \"a\": 2}", "nil", "\"s\"", "t(1)", "t(\"v\")", "1.5"]
+    pairs = [(k, r.choice(vals)) for k in ks]
+    layout = r.below(4)
+    if layout == 0:
+        items = ", ".join('"%s": %s' % kv for kv in pairs)
+    elif layout == 1:
+        # one entry per line, keys aligned in the same column (the usual formatting)
+        items = "\n" + "".join('    "%s": %s,\n' % kv for kv in pairs)
+    elif layout == 2:
+        # two entries per line
+        rows = [pairs[i:i + 2] for i in range(0, len(pairs), 2)]
+        items = "\n" + "".join("  " + ", ".join('"%s": %s' % kv for kv in row) + ",\n" for row in rows)
+    else:
+        items = "\n" + "".join('%s"%s": %s,\n' % (" " * (i % 3), kv[0], kv[1]) for i, kv in enumerate(pairs))
+    pool = r.choice([
+        [str(i) for i in range(9)],
+        ["1.5", "2.25", "0.5", "-3.75", "1e9", "0.1", "100.0", "-0.0", "3.0"],
+        ["1", "2.5", "\"a\"", "true", "0.5", "\"b\"", "3", "false", "-1.25", "byte(7)", "byte(3)", "nil"][:11],
+        ["\"b\"", "\"a\"", "\"zz\"", "\"\"", "\"é\"", "\"k\""],
+        ["1", "1.0", "2", "2.0", "0.5", "3", "true", "byte(1)", "byte(2)"],
+    ])
+    sitems = ", ".join(r.choice(pool) for _ in range(2 + r.below(6)))
+    lines = ["func t(x) { print(\"t\", x); return x }", "m := {%s}" % items, "s := {%s}" % sitems, "out := []"]
     ops = ["print(m)", "print(s)", "out.append(string(m))", "out.append(string(s))", "for k, v := range m { out.append(k) }",
-           "for x := range s { out.append(x) }", "out.append(keys(m))", "out.append(sorted(s))", "out.append(list(s))",
+           "for x := range s { out.append(x) }", "out.append(keys(m))", "out.append(try(func() { return sorted(s) }, \"unsortable\"))", "out.append(list(s))",
            "for k := range m { print(k) }", "m2 := {\"q\": 0}\nm2.update(m)\nout.append(m2)", "out.append(m.keys())", "out.append(m.values())",
            "out.append(m.items())", "import json\nout.append(json.marshal(m))", "out.append(s.union({100, 50}))",
-           "out.append(s.intersection({1, 2, 3}))", "out.append(m == {%s})" % items, "out.append(s == {%s})" % sitems,
+           "out.append(s.intersection({1, 2, 3, 0.5, 2.25}))", "out.append(s.union({1.5, 0.25, 7.75}))", "import json\nout.append(try(func() { return json.marshal(s) }, \"nojson\"))",
+           "out.append(set(list(s)))", "out.append(string(list(s)))", "out.append(m == {%s})" % items, "out.append(s == {%s})" % sitems,
            "out.append(any(m))", "out.append(all(s))", "import os\nout.append(os.environ())", "out.append(encode(m, \"json\"))",
            "out.append(hash(string(m)))", "func f(a, b=1, c=\"x\") { return [a, b, c] }\nout.append(f(1))",
            "out.append(type(m))", "out.append('{m}')", "for i, x := range list(s) { out.append([i, x]) }"]
